@@ -115,6 +115,16 @@ def check(ix, rep):
             cow = set(established.get(id(caller), set())) if caller is not None else set()
             if caller is not None:
                 cow |= set(E.method_effects(caller).writes)
+                # called only from inside `if <operators were built>:` blocks of the caller: what is written together with that attribute exists here
+                sites = [c_ for c_ in ast.walk(caller.node) if isinstance(c_, ast.Call) and isinstance(c_.func, ast.Attribute) and c_.func.attr == f.node.name
+                         and isinstance(c_.func.value, ast.Name) and c_.func.value.id == 'self']
+                if sites:
+                    common = None
+                    for c_ in sites:
+                        gs = _positive_guards(caller.node, c_, initd)
+                        common = gs if common is None else (common & gs)
+                    for g in (common or ()):
+                        cow |= _cowritten(ix, cls, g) | {g}
             for g in guards:
                 cow |= _cowritten(ix, cls, g) | {g}
             established[id(f)] = cow | set(ef.writes)
@@ -127,6 +137,8 @@ def check(ix, rep):
                 elif attr in cow:
                     rep.ok('R-ATTR', f.module.rel, sym, '%s:self.%s' % (slotp, attr),
                            'read only after an early return guarded on %s, which is written together with it' % sorted(guards), nodes[0].lineno)
+                elif all(any(attr in (_cowritten(ix, cls, g_) | {g_}) for g_ in _positive_guards(f.node, n, initd)) for n in nodes):
+                    rep.ok('R-ATTR', f.module.rel, sym, '%s:self.%s' % (slotp, attr), 'read only inside `if <the operators were built>:`, which is written together with it', nodes[0].lineno)
                 elif all(_under_existence_test(f.node, n, attr) for n in nodes):
                     rep.ok('R-ATTR', f.module.rel, sym, '%s:self.%s' % (slotp, attr), 'read only inside `if getattr(self, %r, None) is not None` / hasattr' % attr, nodes[0].lineno)
                 elif all(_in_getattr(f.node, n) for n in nodes):
@@ -283,6 +295,8 @@ def check(ix, rep):
         for e in exprs:
             if isinstance(e, ast.Constant) and e.value is None:
                 continue
+            if isinstance(e, ast.Constant) and isinstance(e.value, (int, float, complex, str, bool)):
+                continue        # an immutable number: sharing it is unobservable (float() returns the same 0.0 object every time, too)
             if isinstance(e, ast.Call) and not (isinstance(e.func, ast.Attribute) and e.func.attr in ('get', 'setdefault', 'pop')):
                 continue        # a constructor call: float(), class_()
             bad = e
@@ -338,6 +352,30 @@ def _under_existence_test(fnode, node, attr):
         child = q
         q = parents.get(id(q))
     return False
+
+
+def _positive_guards(fnode, node, initd):
+    """attrs G such that node lies in the body of `if getattr(self, 'G', None) is not None:` / `if hasattr(self, 'G'):` -- the positive spelling of the
+    early-return guard (effective only while no constructor gives G a value)"""
+    parents = {}
+    for p in ast.walk(fnode):
+        for c in ast.iter_child_nodes(p):
+            parents[id(c)] = p
+    out = set()
+    child = node
+    q = parents.get(id(node))
+    while q is not None and q is not fnode:
+        if isinstance(q, ast.If) and any(child is s or any(child is x for x in ast.walk(s)) for s in q.body):
+            t = ast.unparse(q.test).replace(' ', '').replace('"', "'")
+            for x in ast.walk(q.test):
+                if isinstance(x, ast.Call) and isinstance(x.func, ast.Name) and x.func.id in ('getattr', 'hasattr') and len(x.args) >= 2 and isinstance(x.args[1], ast.Constant):
+                    g = x.args[1].value
+                    if t in ("getattr(self,'%s',None)isnotNone" % g, "hasattr(self,'%s')" % g, "getattr(self,'%s',None)!=None" % g):
+                        if not (g in initd and not (isinstance(initd[g], ast.Constant) and initd[g].value is None)):
+                            out.add(g)
+        child = q
+        q = parents.get(id(q))
+    return out
 
 
 def _in_getattr(fnode, n):
